@@ -27,7 +27,7 @@ CONTENTS = [b"", b"hello\n", b"a\r\nb\r\n", b"\x00\x01\xff", b"x" * 5000, b"line
             b"a" * 4096 + b"\nq\r\r\n", b"\r"]
 EXCLUDES = [None, None, None, [], ["*.pyc"], ["lib"], ["src/"], ["**/x"], ["a/*"], ["*", "!keep.pyc"], ["*.txt", "a"],
             ["x"], ["/a"], ["sub/x"], ["é"], ["a b"], ["*.py", "!foo.py"], ["lnk"], ["lnk/"], ["b", "**/q"],
-            ["dist/", "*.bin", "zz"], ["**/src/*"], ["f"], ["up", "l2"], ["."], ["a\\b"], ["file:*"]]
+            ["dist/", "*.bin", "zz"], ["**/src/*"], ["f"], ["up", "l2"], ["."], ["a\\b"], ["file:*"], [".*"], [".*", "!.hidden"]]
 
 
 # ---------------------------------------------------------------- tree specs
@@ -363,6 +363,14 @@ def pinned_cases():
         out.append({"tree": t5, "cwd": [], "tags": ["pinned:anchored-exclude"],
                     "args": {"artifacts": arts, "exclude_patterns": ex, "base_path": None,
                              "follow": False, "normalize": False, "lstrip": None}})
+    # patterns for hidden files ('.*') also match the start path '.': the start directory itself is not subject to
+    # exclusion (D10c, fixed), only what lies below it — for plain recording and for dir: artifacts
+    t6 = d((".hidden", f("h")), ("a", f("a")), ("sub", d((".h2", f("2")), ("s", f("s")), (".d", d(("in", f("i")))))))
+    for arts in ([".",], ["./"], ["sub/.."], ["dir:sub"], ["dir:."], ["sub"], [".", "sub"], ["file:."]):
+        for ex in ([".*"], ["."], [".*", "!.hidden"], ["./"]):
+            out.append({"tree": t6, "cwd": [], "tags": ["pinned:hidden-file-pattern"],
+                        "args": {"artifacts": arts, "exclude_patterns": ex, "base_path": None,
+                                 "follow": False, "normalize": False, "lstrip": None}})
     # ostree + file + dir merged
     h = "ab" + "c" * 62
     t4 = d(("refs", d(("heads", d(("main", f(h + "\n")))))), ("objects", d(("ab", d(("c" * 62 + ".commit", f("blob")))))),
